@@ -1836,6 +1836,7 @@ class Tensor(object):
         """
 
         assert 0 <= mu < self.dim() - 1
+        self._cp_to_tt()
         self.factor_orthogonalize(mu)
         Q, R = torch.linalg.qr(tn.left_unfolding(self.cores[mu], batch=self.batch))
 
@@ -1871,6 +1872,7 @@ class Tensor(object):
         """
 
         assert 1 <= mu < self.dim()
+        self._cp_to_tt()
         self.factor_orthogonalize(mu)
         # Torch has no rq() decomposition
         if self.batch:
